@@ -532,7 +532,12 @@ func (b *Buffer) deleteGlyphsInplace(filter func(*GlyphInfo) bool) {
 
 			if i+1 < len(b.Info) {
 				// Merge cluster forward.
+				// Every glyph before i has been deleted: do not let the merge walk back over them
+				// (a run of deleted glyphs sharing a cluster made the deletion quadratic)
+				idx := b.idx
+				b.idx = i
 				b.mergeClusters(i, i+2)
+				b.idx = idx
 			}
 
 			continue
